@@ -6,12 +6,14 @@ links as a native executable.
 import Verif.Drv.Runner
 import Verif.Drv.KV
 import Verif.Drv.Chain
+import Verif.Drv.Seed
 
 open Verif.Drv
 
 def registry : List (String × List (String × Model)) := [
   ("kv", kvModels),
-  ("chain", chainModels)
+  ("chain", chainModels),
+  ("seed", seedModels)
 ]
 
 def findModel (ws : List String) : Option (Model × List String) :=
